@@ -64,11 +64,11 @@ class World:
                      "is_leap": lambda y: y % 4 == 0 and (y % 100 != 0 or y % 400 == 0), "DAYS_PER_MONTHS": core.const("constants", "DAYS_PER_MONTHS"),
                      "RuntimeError": ValueError, "ValueError": ValueError}
             self._add_duration = (hfuncs["add_duration"], {**hfuncs, "$globals": hglob})
-        self.ctor = ClassStub(_new=self._construct, _isa=lambda v: isinstance(v, Obj), create=self._create, instance=lambda v, *a, **k: v)
+        self.ctor = ClassStub(_new=self._construct, _isa=lambda v: isinstance(v, Obj), create=self._create, instance=self._instance)
         self.glob: dict[str, Any] = dict(funcs)
         if interpret_add:
             self.glob["add_duration"] = self._add_duration
-        pend = Stub(datetime=self._create, date=lambda y, mo, d: self.date(_dt.date(y, mo, d)), instance=lambda v, *a, **k: v,
+        pend = Stub(datetime=self._create, date=lambda y, mo, d: self.date(_dt.date(y, mo, d)), instance=self._instance,
                     DateTime=self.ctor, Date=self.ctor, _WEEK_STARTS_AT=week[0], _WEEK_ENDS_AT=week[1])
         self.glob["$globals"] = {**consts, "WeekDay": WEEKDAY, "pendulum": pend, "ValueError": ValueError, "int": int, "str": str,
                                  "calendar": Stub(monthcalendar=_calendar.monthcalendar, monthrange=_calendar.monthrange),
@@ -153,7 +153,7 @@ class World:
         tzinfo = f.pop("tzinfo", None)
         w = _dt.datetime(**{n: f.get(n, 0) for n in names[:7]})
         if tzinfo is not self.tz:
-            return self.datetime(w, fold, zone=self.other_zone(tzinfo))
+            return self.datetime(w, fold, zone=tzinfo if isinstance(tzinfo, Stub) else self.other_zone(tzinfo))
         if self.skipped(w):
             raise core.Unsupported("DateTime(...) constructed directly on a skipped wall time")
         return self.datetime(w, fold)
@@ -164,6 +164,15 @@ class World:
             # built in another zone than the scenario's (the UTC default, None, ...): no transition applies there
             return self.datetime(w, fold, zone=self.other_zone(tz))
         return self.place(w, fold)
+
+    def _instance(self, v, tz="UTC (the default of instance())"):
+        """DateTime.instance(dt, tz=UTC): a value with a tzinfo keeps it; a naive one is read in `tz`"""
+        d = vars(v) if isinstance(v, Obj) else None
+        if d is None:
+            raise core.Unsupported("instance() of a native value in the scenario world")
+        if d.get("tzinfo") is not None or tz is None:
+            return v
+        return self.datetime(d["_wall"], d["fold"], zone=self.other_zone(tz))
 
     def other_zone(self, tz):
         return Stub(name=f"{getattr(tz, 'name', tz)}", _eqkey=("other", str(getattr(tz, "name", tz))))
